@@ -97,6 +97,37 @@ CHECKS = {
         "Trusted: Python csv module, Fraction, mpmath. Variance compared to the exact square within 2e-15 (glibc pow).",
         "4/C20",
     ),
+    "C03": (
+        "Hypothesis-generated positions/beams in near-degenerate angle classes vs exact mpmath differences, norms and "
+        "Kahan angle; metamorphic exact transforms (swap, 2^k scaling, signed permutations, dyadic translations)",
+        "Generated-input search against a 50-digit reference on the stored inputs: beams, L1, L2, Ltotal (scatter and "
+        "no-scatter) to 4 ulp through kernels, data-array wrappers and graphs; 2theta to 4e-15 rad absolute in every "
+        "angle class (which arccos(dot) cannot meet), in [0, pi]; swap and 2^k scaling bit-identical.",
+        "Trusted: mpmath. Layouts where the incident beam has a dimension the scattered beam lacks are outside the domain "
+        "(two_theta refuses them).",
+        "4/C03",
+    ),
+    "C05": (
+        "Hypothesis-generated flight paths, energies, units and dtypes with arrival times constructed in mpmath; "
+        "bisection over representable times for the NaN boundary",
+        "Generated-input search against a 50-digit reference: direct and indirect kernels and convert() vs the exact "
+        "energy transfer of the stored time with a conditioning-aware tolerance; energy conservation across the two "
+        "geometries; the NaN switch located by sectioning the representable times and required within 8 ulp (+1e-12 t0) "
+        "of the exact t0, NaN below, finite above; never +-inf.",
+        "Trusted: mpmath. The 1e-12*t0 allowance covers scipp's own to_unit error for compound units (up to 550 eps).",
+        "4/C05",
+    ),
+    "C16": (
+        "Hypothesis-generated parameters, prefixes, units and composites vs the docstring formulas in mpmath; "
+        "Gauss-Legendre quadrature for normalisation; exact mirror points for symmetry",
+        "Generated-input search against analytic oracles: integral equals amplitude (1e-9), symmetry at exactly "
+        "representable mirror points, half maximum at loc +- fwhm/2 with the model's own fwhm, pointwise values vs mpmath "
+        "(1e-12), composite = sum of parts bit-exact, prefix independence bit-exact, unit propagation and refusal of "
+        "missing/unknown/unprefixed parameters and inconsistent units.",
+        "Trusted: mpmath, numpy Gauss-Legendre nodes. Integral/symmetry/fwhm facets draw |loc| <= 100..1e3 scale so the "
+        "quadrature nodes are representable; arbitrary locations are covered by the pointwise facet.",
+        "4/C16",
+    ),
 }
 
 NOT_YET = "check not built yet (work in progress; every property is planned to be claimed, see DESIGN.md section 4)"
